@@ -84,6 +84,14 @@ func loadKV(c *eng.Ctx) *kvAnalysis {
 				owner = mk.Parent()
 			}
 		}
+		// ... or deferred by the mutator itself and acting only when its named
+		// error result is non-nil at exit: `defer func() { if err != nil { undo } }()`
+		// followed by `return kv.save()`
+		if viaCallback == nil {
+			if s, par := k.deferredUndo(f); s != nil {
+				viaCallback, owner = s, par
+			}
+		}
 		for _, w := range kvWritesIn(f) {
 			w.Rollback = k.rollbackOf(w.In)
 			if viaCallback != nil && w.Rollback == nil {
@@ -426,4 +434,98 @@ func sameMapSrcX(a, b ssa.Value) bool {
 		return false
 	}
 	return eng.SameX(ba, bb)
+}
+
+// deferredUndo: f is a function literal deferred by its parent P, all of whose
+// state writes are edge-dominated by `err != nil` for P's named error result,
+// registered before P's only save call, whose error is what P returns on every
+// path after it.  Then f's writes run exactly on the failure of that save
+// (before P returns): they are its rollback.  Returns the save call and P.
+func (k *kvAnalysis) deferredUndo(f *ssa.Function) (*ssa.Call, *ssa.Function) {
+	par := f.Parent()
+	if par == nil || len(kvWritesIn(f)) == 0 {
+		return nil, nil
+	}
+	mk := eng.MakeClosureOf(f)
+	if mk == nil {
+		return nil, nil
+	}
+	var df *ssa.Defer
+	for _, r := range *mk.Referrers() {
+		switch u := r.(type) {
+		case *ssa.Defer:
+			if u.Call.Value == ssa.Value(mk) {
+				df = u
+			}
+		case *ssa.DebugRef:
+		default:
+			return nil, nil
+		}
+	}
+	if df == nil {
+		return nil, nil
+	}
+	// the named error result of P as seen from f
+	ei := errResultIndex(par)
+	if ei < 0 {
+		return nil, nil
+	}
+	isResultCell := func(v ssa.Value) bool {
+		// load of a free variable bound to an Alloc of P of error type that P's returns load
+		u, ok := v.(*ssa.UnOp)
+		if !ok || u.Op != token.MUL {
+			return false
+		}
+		fv, ok := u.X.(*ssa.FreeVar)
+		if !ok {
+			return false
+		}
+		for i, q := range f.FreeVars {
+			if q == fv && i < len(mk.Bindings) {
+				al, isAl := mk.Bindings[i].(*ssa.Alloc)
+				if !isAl || !eng.IsErrorType(eng.Deref(al.Type())) {
+					return false
+				}
+				for _, r := range eng.Returns(par) {
+					if ld, isLd := r.Results[ei].(*ssa.UnOp); isLd && ld.X == ssa.Value(al) {
+						return true
+					}
+				}
+			}
+		}
+		return false
+	}
+	for _, w := range kvWritesIn(f) {
+		guarded := false
+		for _, cond := range eng.FactsAt(w.In) {
+			if v, isNil, ok := cond.NilCheck(); ok && !isNil && isResultCell(eng.Origin(v)) {
+				guarded = true
+			}
+			if v, isNil, ok := cond.NilCheck(); ok && !isNil && isResultCell(v) {
+				guarded = true
+			}
+		}
+		if !guarded {
+			return nil, nil
+		}
+	}
+	saves := k.saveCalls(par)
+	if len(saves) != 1 || !eng.InstrDominates(df, saves[0]) {
+		return nil, nil
+	}
+	sv := saves[0]
+	ev := saveErr(sv)
+	if ev == nil {
+		return nil, nil
+	}
+	// after the save, P returns the save's own error
+	for _, r := range eng.Returns(par) {
+		if hit, _ := eng.Search(par, sv, nil, nil, func(x ssa.Instruction) bool { return x == ssa.Instruction(r) }); hit == nil {
+			continue
+		}
+		if !eng.Same(eng.RetVals(r)[ei], ev) {
+			return nil, nil
+		}
+	}
+	return sv, par
 }
